@@ -132,14 +132,22 @@ func (r *Run) Known(sig string) bool {
 // KnownSigs lists the known-finding signatures of this property.
 func (r *Run) KnownSigs() map[string]string { return r.known }
 
-func (r *Run) SetRule(rule string)         { r.mu.Lock(); r.rule = rule; r.mu.Unlock() }
-func (r *Run) Assume(a ...string)          { r.mu.Lock(); r.assume = append(r.assume, a...); r.mu.Unlock() }
-func (r *Run) Freeze()                     { r.mu.Lock(); r.frozen = true; r.mu.Unlock() }
-func (r *Run) Inconclusive(why string)     { r.mu.Lock(); r.inconcl = append(r.inconcl, why); r.mu.Unlock() }
-func (r *Run) Evaluations() int64          { r.mu.Lock(); defer r.mu.Unlock(); return r.evals }
-func (r *Run) Counter(label string) int64  { r.mu.Lock(); defer r.mu.Unlock(); return r.counters[label] }
-func (r *Run) DistinctNonTrivial() int     { r.mu.Lock(); defer r.mu.Unlock(); return len(r.nt) }
-func (r *Run) Violations() []string        { r.mu.Lock(); defer r.mu.Unlock(); return append([]string(nil), r.violation...) }
+func (r *Run) SetRule(rule string) { r.mu.Lock(); r.rule = rule; r.mu.Unlock() }
+func (r *Run) Assume(a ...string)  { r.mu.Lock(); r.assume = append(r.assume, a...); r.mu.Unlock() }
+func (r *Run) Freeze()             { r.mu.Lock(); r.frozen = true; r.mu.Unlock() }
+func (r *Run) Inconclusive(why string) {
+	r.mu.Lock()
+	r.inconcl = append(r.inconcl, why)
+	r.mu.Unlock()
+}
+func (r *Run) Evaluations() int64         { r.mu.Lock(); defer r.mu.Unlock(); return r.evals }
+func (r *Run) Counter(label string) int64 { r.mu.Lock(); defer r.mu.Unlock(); return r.counters[label] }
+func (r *Run) DistinctNonTrivial() int    { r.mu.Lock(); defer r.mu.Unlock(); return len(r.nt) }
+func (r *Run) Violations() []string {
+	r.mu.Lock()
+	defer r.mu.Unlock()
+	return append([]string(nil), r.violation...)
+}
 func (r *Run) ExcludedCount(s string) int64 { r.mu.Lock(); defer r.mu.Unlock(); return r.excluded[s] }
 
 // Eval counts one executed case.
